@@ -155,6 +155,9 @@ def gen_flags(rng, tree, all_subsets=False):
         for i, k in enumerate(keys):
             if bits >> i & 1:
                 flags[k] = rng.choice(TAG_CHOICES) if k == "tag" else True
+        for k, part in (("major", "MAJOR"), ("minor", "MINOR"), ("patch", "PATCH")):
+            if flags.get(k) and part not in names and rng.random() < 0.85:
+                del flags[k]    # keep most steps meaningful: `test` refuses flags whose part the pattern lacks
         return flags
     nflags = rng.choice([0, 0, 1, 1, 1, 2, 2, 3])
     pool = []
